@@ -859,9 +859,46 @@ def implicit_conversions(ck, L):
     ck.floor('R16.7', n, 24, 'assignable cells')
 
 
+def passing_convention(ck, L):
+    """R16.8: how a signal parameter type is spelled inside QOverload<..>::of(&Class::signal). moc's metatypes give the normalised type only
+    (`const T &` and `T` alike), so the generator re-derives the declaration from Qt's convention; if it derives the other form the
+    overload is not found and the header does not compile. Decision table of TypeKind::is_const_ref_preferred over the type domain."""
+    import aeval
+    import rules.c05 as c05
+    ck.rule('R16.8', 'signal parameter types are spelled as Qt declares them: class types by const reference, everything else by value')
+    fnname = 'typemap::TypeKind::is_const_ref_preferred'
+    if fnname not in L.fns:
+        ck.floor('R16.8', 0, 1, 'fn ' + fnname)
+        return
+    ck.analysed(fnname)
+    I = aeval.Interp(L, stubs=c05.base_stubs())
+    # Qt's convention for signal and slot parameters: value classes (QString, QVariant, containers, gadgets) by const reference;
+    # arithmetic types, enumerations, QFlags and pointers by value
+    by_ref = {repr(c05.STRING), repr(c05.VARIANT), repr(c05.LS), repr(c05.LI), repr(c05.GADGET)}
+    n = 0
+    for t in c05.TKS:
+        if t == c05.VOID:
+            continue
+        try:
+            got = I.call(fnname, [t], 0)
+        except aeval.Undecided as e:
+            got = 'undecided: %s' % e
+        n += 1
+        want = repr(t) in by_ref or t[0] == 'List'
+        ck.ob('R16.8', 'passed-as-declared|%s' % c05.nm(('Concrete', t)), got is want, '',
+              '%s is spelled %s' % (c05.nm(('Concrete', t)), 'const T &' if want else 'T') if got is want else
+              'a %s parameter is spelled %s in QOverload<..>, but Qt declares such parameters %s: no matching overload' % (
+                  c05.nm(('Concrete', t)), 'const T &' if got is True else 'T' if got is False else got, 'const T &' if want else 'by value'))
+    ck.floor('R16.8', n, 15, 'type kinds')
+    # who consults it: the signal pointer formatter (and nothing prints a parameter list without it)
+    users = sorted({short(f['path']) for f in L.fn_list for c in H.calls_in(f['body']) if c.get('m') == 'is_const_ref_preferred' and not f['path'].startswith(('typemap::', '<typemap::'))})
+    ck.ob('R16.8', 'consulted-by-the-signal-formatter', any('format_signal_pointer' in u or 'signal' in u.lower() for u in users), '', 'is_const_ref_preferred() is consulted by %s' % users)
+
+
 def _shares(ck, L):
     """obligations of other checks that C16's clauses rest on (same facts)."""
     implicit_conversions(ck, L)
+    passing_convention(ck, L)
     import core as _core
     import rules.c03 as c03
     s3 = _core.Shared(ck, 'R16.1', lambda r, k: r == 'R3.1', 'C03:', ' [the C++ literal is spelled from the decoded string: an undecoded escape is escaped once more and denotes other characters]')
